@@ -1900,7 +1900,16 @@ fn eval_in_list_in_list(list: &Value, items: &[Value]) -> Value {
 fn eval_in_negated_list(left: &Value, items: &[Value]) -> Value {
   for item in items {
     match item {
-      inner @ Value::Number(_) | inner @ Value::String(_) => {
+      // the same kinds of values that a list of tests which is not negated compares with
+      inner @ Value::Number(_)
+      | inner @ Value::String(_)
+      | inner @ Value::Boolean(_)
+      | inner @ Value::Date(_)
+      | inner @ Value::Time(_)
+      | inner @ Value::DateTime(_)
+      | inner @ Value::YearsAndMonthsDuration(_)
+      | inner @ Value::DaysAndTimeDuration(_)
+      | inner @ Value::Context(_) => {
         if let Value::Boolean(true) = eval_in_equal(left, inner) {
           return Value::Boolean(false);
         }
